@@ -383,7 +383,7 @@ Section Read2.
     unfold Sql.read_sql. cbn [sf_prepare sf_query sf_row no_faults]. unfold Sql.io_read_sql.
     cbn [rs_names rs_rows].
     rewrite read_rows_first2. rewrite Hrun. cbn [obind].
-    pose proof (result_map_spec finals names [] [] Hfinlen Hnd eq_refl) as Hrm. simpl in Hrm.
+    pose proof (result_map_spec pf finals names [] [] Hfinlen Hnd eq_refl) as Hrm. simpl in Hrm.
     rewrite Hrm. cbn [obind].
     assert (Hmap : map col_data finals = map Some ds).
     { apply nth_ext with (d := col_data dc) (d' := Some (CInt [])).
@@ -471,4 +471,143 @@ Section Read2.
     apply read_sql_from_run with (finals := finals) (dc := dc); auto.
     intros j Hj. destruct (Hfin j Hj) as (_ & H1 & H2). auto.
   Qed.
+
+  (* ---------------------------------------------------------------- spec_read_gen generalises spec_read *)
+
+  Lemma prep_id g prec vals :
+    (forall v, In v vals -> v = DNull \/ (g v = Some v /\ fix_val fixed prec v = v)) ->
+    prep g fixed prec vals = Some vals.
+  Proof.
+    unfold prep. induction vals as [|v vs IH]; intros H; [reflexivity|].
+    simpl. rewrite IH by (intros x Hx; apply H; now right).
+    destruct (H v (or_introl eq_refl)) as [->|[Hg Hf]]; [reflexivity|].
+    unfold prep_val. rewrite Hg. simpl. rewrite Hf. destruct v; reflexivity.
+  Qed.
+
+  Lemma fix_val_nonpos prec v : (prec <= 0)%Z -> fix_val fixed prec v = v.
+  Proof.
+    intros Hp. destruct v; simpl; auto.
+    replace (0 <? prec)%Z with false by (symmetry; apply Z.ltb_ge; exact Hp). reflexivity.
+  Qed.
+
+  Lemma spec_read_gen_same conf names rows :
+    (forall j, (j < length names)%nat ->
+       prep (g_of conf (nth j names [])) fixed (q_precision conf) (column_vals rows j) = Some (column_vals rows j)) ->
+    spec_read_gen conf names rows = spec_read names rows.
+  Proof.
+    intros H. unfold spec_read_gen, spec_read.
+    destruct (negb (forallb _ rows)); [reflexivity|].
+    destruct (negb (nodupb names && forallb check_name names)); [reflexivity|].
+    destruct (Nat.eqb (length rows) 0); [reflexivity|].
+    f_equal. f_equal. apply map_ext_in. intros j Hj. apply in_seq in Hj. destruct Hj as [_ Hj]. simpl in Hj.
+    match goal with |- match ?p with _ => _ end = _ =>
+      replace p with (Some (column_vals rows j)) by (symmetry; exact (H j Hj)) end.
+    reflexivity.
+  Qed.
+
+  (* without coercion map and precision the new specification is the old one: C19_read is an instance *)
+  Lemma spec_read_gen_plain conf names rows :
+    q_coerce conf = None -> (q_precision conf <= 0)%Z ->
+    spec_read_gen conf names rows = spec_read names rows.
+  Proof.
+    intros Hco Hp. apply spec_read_gen_same. intros j Hj. apply prep_id. intros v Hv. right.
+    split; [|now apply fix_val_nonpos]. unfold g_of, co_of. rewrite Hco. reflexivity.
+  Qed.
+
+  (* ---------------------------------------------------------------- a coercion error anywhere -> no frame *)
+
+  Lemma scan_row_coerce : forall cols row cols',
+    scan_row cols row = Ok cols' -> map c_coerce cols' = map c_coerce cols.
+  Proof.
+    induction cols as [|c cs IH]; intros row cols'; destruct row as [|v vs]; simpl; try discriminate.
+    - intros H; inversion H; reflexivity.
+    - destruct (col_scan c v) as [c1| |] eqn:E1; simpl; try discriminate.
+      destruct (scan_row cs vs) as [cs1| |] eqn:E2; simpl; try discriminate.
+      intros H; inversion H; subst. simpl. f_equal; [exact (col_scan_coerce fixed pf _ _ _ E1)|eauto].
+  Qed.
+
+  Lemma scan_row_each : forall cols row cols' j c v,
+    scan_row cols row = Ok cols' -> nth_error cols j = Some c -> nth_error row j = Some v ->
+    exists c', col_scan c v = Ok c'.
+  Proof.
+    induction cols as [|c0 cs IH]; intros row cols' j c v; destruct row as [|v0 vs]; simpl; try discriminate.
+    - intros _ H. destruct j; discriminate.
+    - destruct (col_scan c0 v0) as [c1| |] eqn:E1; simpl; try discriminate.
+      destruct (scan_row cs vs) as [cs1| |] eqn:E2; simpl; try discriminate.
+      intros _ Hc Hv. destruct j as [|j]; simpl in *.
+      + inversion Hc; inversion Hv; subst. eauto.
+      + eapply IH; eauto.
+  Qed.
+
+  Lemma alloc_coerce conf names : map c_coerce (alloc_columns names conf) = map (co_of conf) names.
+  Proof. unfold alloc_columns. rewrite map_map. reflexivity. Qed.
+
+  Definition st_inv (conf : sql_config) (names : list bytes) (st : list column * list bytes) : Prop :=
+    fst st = [] \/ map c_coerce (fst st) = map (co_of conf) names.
+
+  Definition row_coercible (conf : sql_config) (names : list bytes) (row : list dval) : Prop :=
+    forall j n v, nth_error names j = Some n -> nth_error row j = Some v -> v <> DNull ->
+                  g_of conf n v <> None.
+
+  Lemma read_row_coercible conf names st row st' :
+    st_inv conf names st -> read_row conf names st row = Ok st' ->
+    st_inv conf names st' /\ row_coercible conf names row.
+  Proof.
+    intros Hinv H. destruct st as [columns colNames].
+    assert (Hex : exists cols1 cols', map c_coerce cols1 = map (co_of conf) names
+                                      /\ scan_row cols1 row = Ok cols' /\ fst st' = cols').
+    { unfold Sql.read_row in H. destruct columns as [|c0 cs].
+      - destruct (match q_coerce conf with Some m => coerce_check m colNames | None => true end); [|discriminate].
+        cbn [obind] in H.
+        destruct (scan_row (alloc_columns names conf) row) as [cols'| |] eqn:E; simpl in H; try discriminate.
+        inversion H; subst. exists (alloc_columns names conf), cols'. split; [apply alloc_coerce|auto].
+      - cbn [obind] in H.
+        destruct (scan_row (c0 :: cs) row) as [cols'| |] eqn:E; simpl in H; try discriminate.
+        inversion H; subst. exists (c0 :: cs), cols'. split; auto.
+        destruct Hinv as [Hnil|Hco]; [discriminate|exact Hco]. }
+    destruct Hex as (cols1 & cols' & Hco & Hscan & Hst). split.
+    - right. rewrite Hst. now rewrite (scan_row_coerce _ _ _ Hscan).
+    - intros j n v Hn Hv Hnn Hg.
+      assert (Hcj : nth_error (map c_coerce cols1) j = Some (co_of conf n))
+        by (rewrite Hco; now rewrite nth_error_map, Hn).
+      rewrite nth_error_map in Hcj. destruct (nth_error cols1 j) as [c|] eqn:Ec; [|discriminate].
+      simpl in Hcj. inversion Hcj as [Hck].
+      destruct (scan_row_each _ _ _ _ _ _ Hscan Ec Hv) as [c' Hc'].
+      rewrite col_scan_gen in Hc'. rewrite Hck in Hc'. unfold g_of in Hg. unfold gen_scan in Hc'.
+      rewrite Hg in Hc'. destruct v; try discriminate. congruence.
+  Qed.
+
+  Lemma read_rows_coercible conf names : forall rows k st res,
+    st_inv conf names st -> read_rows conf names None k st rows = Ok res ->
+    forall row, In row rows -> row_coercible conf names row.
+  Proof.
+    induction rows as [|row rest IH]; intros k st res Hinv H r Hr; [contradiction|].
+    rewrite read_rows_cons in H.
+    destruct (read_row conf names st row) as [st'| |] eqn:E; simpl in H; try discriminate.
+    destruct (read_row_coercible _ _ _ _ _ Hinv E) as [Hinv' Hrow].
+    destruct Hr as [<-|Hr]; [exact Hrow|]. eapply IH; eauto.
+  Qed.
+
+  (* C19_coercion_error: a non-NULL value on which the coercion configured for its column reports an
+     error, anywhere in the result set: ReadSQL does not return a frame *)
+  Lemma read_sql_coercion_error conf rs row j n v res :
+    In row (rs_rows rs) -> nth_error (rs_names rs) j = Some n -> nth_error row j = Some v ->
+    v <> DNull -> g_of conf n v = None ->
+    read_sql conf rs no_faults <> Ok res.
+  Proof.
+    intros Hrow Hn Hv Hnn Hg. unfold Sql.read_sql. simpl. unfold Sql.io_read_sql.
+    destruct (Sql.read_rows fixed pf conf (rs_names rs) None 0 ([], []) (rs_rows rs)) as [st| |] eqn:E;
+      simpl; try discriminate.
+    exfalso.
+    assert (Hinv : st_inv conf (rs_names rs) ([], [])) by (left; reflexivity).
+    exact (read_rows_coercible conf (rs_names rs) (rs_rows rs) 0%nat ([], []) st Hinv E row Hrow j n v Hn Hv Hnn Hg).
+  Qed.
+
+  (* the errors of the two shipped coercions *)
+  Lemma coerce_fn_int64_to_bool_error v : (forall z, v <> DInt z) -> coerce_fn CoInt64ToBool v = None.
+  Proof. intros H. destruct v; try reflexivity. exfalso. eapply H; eauto. Qed.
+
+  Lemma coerce_fn_string_to_float_error v :
+    (forall s, v = DStr s -> pf s = None) -> coerce_fn CoStringToFloat v = None.
+  Proof. intros H. destruct v; try reflexivity. simpl. now rewrite (H s eq_refl). Qed.
 End Read2.
